@@ -1,5 +1,1068 @@
-//! DocGen (appendix E) — placeholder until workload B lands.
+//! DocGen (DESIGN appendix E): draws a tree together with a *layout plan* and renders it to TOML
+//! text, recording the byte range of every key token and value token it writes — an expected-span
+//! table that does not come from the code under test. Also: reader-type inference for a tree, the
+//! toml-test corpus as a second document source, and plan-level shrinking.
+
 use crate::common::*;
-pub fn shrink_doc(_sc: &Scenario) -> Vec<Scenario> {
-    Vec::new()
+use crate::rng::Rng;
+use crate::types::*;
+use serde::{Deserialize, Serialize};
+
+#[derive(Clone, Debug, PartialEq, Eq, Serialize, Deserialize)]
+pub enum TabLayout {
+    Header,
+    Dotted,
+    Inline,
+}
+
+#[derive(Clone, Debug, PartialEq, Eq, Serialize, Deserialize)]
+pub enum Node {
+    /// scalar leaf (value in the tree) — spelling is chosen at render time from the trivia stream
+    Scalar(Tree),
+    Array(Vec<Node>),
+    Table(Vec<(String, Node)>, TabLayout),
+    /// array of tables written with [[headers]]
+    Aot(Vec<Vec<(String, Node)>>),
+}
+
+#[derive(Clone, Debug, PartialEq, Eq, Serialize, Deserialize)]
+pub struct DocPlan {
+    pub root: Vec<(String, Node)>,
+    pub trivia_seed: u64,
+    /// layout feature switches (swarm): bit0 comments, bit1 CRLF, bit2 BOM, bit3 no final newline,
+    /// bit4 odd whitespace/indentation, bit5 multi-line arrays, bit6 exotic scalar spellings,
+    /// bit7 children before parent headers / implicit parents, bit8 quoted keys although bare would do
+    pub features: u32,
+}
+
+pub const F_COMMENTS: u32 = 1;
+pub const F_CRLF: u32 = 2;
+pub const F_BOM: u32 = 4;
+pub const F_NO_FINAL_NL: u32 = 8;
+pub const F_WS: u32 = 16;
+pub const F_ML_ARRAYS: u32 = 32;
+pub const F_SPELLINGS: u32 = 64;
+pub const F_REORDER: u32 = 128;
+pub const F_QUOTE_KEYS: u32 = 256;
+
+impl Node {
+    pub fn tree(&self) -> Tree {
+        match self {
+            Node::Scalar(t) => t.clone(),
+            Node::Array(xs) => Tree::Arr(xs.iter().map(|n| n.tree()).collect()),
+            Node::Table(kvs, _) => Tree::Tab(kvs.iter().map(|(k, n)| (k.clone(), n.tree())).collect()),
+            Node::Aot(ts) => Tree::Arr(ts.iter().map(|kvs| Tree::Tab(kvs.iter().map(|(k, n)| (k.clone(), n.tree())).collect())).collect()),
+        }
+    }
+}
+impl DocPlan {
+    pub fn tree(&self) -> Tree {
+        Tree::Tab(self.root.iter().map(|(k, n)| (k.clone(), n.tree())).collect())
+    }
+}
+
+// ------------------------------------------------------------------------------------------------
+// plan generation
+// ------------------------------------------------------------------------------------------------
+
+const DOC_KEYS: &[&str] = &["a", "b", "c", "d", "name", "id", "x", "y", "key", "val", "t", "u", "list", "pt", "srv", "n1", "k-2", "k_3", "0", "1", "2"];
+const DOC_ODD_KEYS: &[&str] = &[
+    "", "a.b", "a b", "\"q\"", "'", "é", "日本", "true", "inf", "1979-05-27", "123", "1.5", "-", "a\nb", "\t", "\\", "#c", "=", "[x]", "🦀", "k é", "''", "\u{7f}", " ",
+];
+const COMMENT_TEXTS: &[&str] = &["", " c", " é日本 = [", " \"#\" '", "\t tab", " 🦀 x = 1", " [table]", "#", " ünï"];
+
+struct PlanGen<'r> {
+    rng: &'r mut Rng,
+    odd_keys: u32,
+    budget: usize,
+    max_depth: u32,
+}
+
+impl<'r> PlanGen<'r> {
+    fn key(&mut self, used: &[String]) -> String {
+        for _ in 0..40 {
+            let k = if self.rng.chance(self.odd_keys, 100) { *self.rng.pick(DOC_ODD_KEYS) } else { *self.rng.pick(DOC_KEYS) };
+            if !used.iter().any(|u| u == k) {
+                return k.to_string();
+            }
+        }
+        format!("k{}", used.len())
+    }
+    fn scalar(&mut self) -> Tree {
+        match self.rng.below(9) {
+            0 => Tree::Bool(self.rng.chance(1, 2)),
+            1 | 2 => Tree::Int(*self.rng.pick(&[0i64, 1, -1, 42, 255, 256, -128, 65535, 1_000_000, i64::MAX, i64::MIN, 7, 99, -17, 1 << 40])),
+            3 => Tree::Float(canon_f64(f64::from_bits(*self.rng.pick(crate::gen::F64_SPECIAL)))),
+            4 => Tree::Float(canon_f64(*self.rng.pick(&[0.5f64, 3.25, -2.5, 1e10, 6.02e23, 1e-5, 100.0, 0.1, 2.0]))),
+            5 => {
+                // in-range date-time of one of the four kinds
+                let y = *self.rng.pick(&[1979u16, 2000, 2024, 9999, 1]);
+                let date = Some((y, 1 + self.rng.below(12) as u8, 1 + self.rng.below(28) as u8));
+                let time = Some((self.rng.below(24) as u8, self.rng.below(60) as u8, *self.rng.pick(&[0u8, 30, 59, 60]), *self.rng.pick(&[0u32, 0, 500_000_000, 123_456_789, 1, 999_999_999])));
+                let off = Some(match self.rng.below(4) {
+                    0 | 1 => Off::Z,
+                    2 => Off::Min(-7 * 60),
+                    _ => Off::Min(*self.rng.pick(&[0i16, 60, 330, -1, 23 * 60 + 59, -(23 * 60 + 59)])),
+                });
+                Tree::Dt(match self.rng.below(4) {
+                    0 => Dt { date, time, offset: off },
+                    1 => Dt { date, time, offset: None },
+                    2 => Dt { date, time: None, offset: None },
+                    _ => Dt { date: None, time, offset: None },
+                })
+            }
+            _ => {
+                let s = if self.rng.chance(1, 3) {
+                    let n = self.rng.below(10);
+                    (0..n).map(|_| *self.rng.pick(crate::gen::STR_CHARS)).collect()
+                } else {
+                    self.rng.pick(crate::gen::STR_POOL).to_string()
+                };
+                Tree::Str(s)
+            }
+        }
+    }
+    /// `ctx`: 0 = body of root/header/aot-element table (headers allowed), 1 = dotted table body, 2 = inline (inside value)
+    fn node(&mut self, depth: u32, ctx: u32) -> Node {
+        if self.budget == 0 || depth >= self.max_depth || self.rng.chance(55, 100) {
+            return Node::Scalar(self.scalar());
+        }
+        self.budget -= 1;
+        match self.rng.below(10) {
+            0 | 1 | 2 => {
+                // array of values
+                let n = self.rng.below(4);
+                Node::Array((0..n).map(|_| self.node(depth + 1, 2)).collect())
+            }
+            3 | 4 if ctx == 0 => {
+                // array of tables with [[headers]]
+                let n = 1 + self.rng.below(3);
+                Node::Aot((0..n).map(|_| self.entries(depth + 1, 0)).collect())
+            }
+            5 | 6 | 7 if ctx == 0 => Node::Table(self.entries(depth + 1, 0), TabLayout::Header),
+            8 if ctx <= 1 => {
+                let kvs = self.entries(depth + 1, 1);
+                if kvs.is_empty() {
+                    // an empty table cannot be written with dotted keys
+                    Node::Table(kvs, TabLayout::Inline)
+                } else {
+                    Node::Table(kvs, TabLayout::Dotted)
+                }
+            }
+            _ => Node::Table(self.entries(depth + 1, 2), TabLayout::Inline),
+        }
+    }
+    fn entries(&mut self, depth: u32, ctx: u32) -> Vec<(String, Node)> {
+        let n = self.rng.below(5);
+        let mut kvs: Vec<(String, Node)> = Vec::new();
+        for _ in 0..n {
+            let used: Vec<String> = kvs.iter().map(|(k, _)| k.clone()).collect();
+            let k = self.key(&used);
+            let v = self.node(depth, ctx);
+            kvs.push((k, v));
+        }
+        kvs
+    }
+}
+
+pub fn gen_plan(rng: &mut Rng) -> DocPlan {
+    let odd_keys = *rng.pick(&[0u32, 0, 15, 50]);
+    let features = if rng.chance(1, 6) { 0 } else { (rng.next() & 0x1ff) as u32 };
+    let trivia_seed = rng.next();
+    let max_depth = 1 + rng.below(4) as u32;
+    let budget = 4 + rng.below(20);
+    let mut g = PlanGen { rng, odd_keys, budget, max_depth };
+    let mut root = g.entries(0, 0);
+    if root.is_empty() && g.rng.chance(9, 10) {
+        root.push(("a".into(), Node::Scalar(g.scalar())));
+    }
+    DocPlan { root, trivia_seed, features }
+}
+
+// ------------------------------------------------------------------------------------------------
+// rendering
+// ------------------------------------------------------------------------------------------------
+
+struct Render {
+    out: String,
+    t: Rng,
+    f: u32,
+    spans: Vec<(Vec<PathSeg>, usize, usize, bool)>,
+}
+
+fn is_bare(k: &str) -> bool {
+    !k.is_empty() && k.chars().all(|c| c.is_ascii_alphanumeric() || c == '_' || c == '-')
+}
+
+fn basic_escape(s: &str, out: &mut String, t: &mut Rng, exotic: bool) {
+    for c in s.chars() {
+        match c {
+            '"' => out.push_str("\\\""),
+            '\\' => out.push_str("\\\\"),
+            '\u{8}' => out.push_str("\\b"),
+            '\t' => {
+                if exotic && t.chance(1, 2) {
+                    out.push('\t')
+                } else {
+                    out.push_str("\\t")
+                }
+            }
+            '\n' => out.push_str("\\n"),
+            '\u{c}' => out.push_str("\\f"),
+            '\r' => out.push_str("\\r"),
+            c if (c as u32) < 0x20 || c as u32 == 0x7f => out.push_str(&format!("\\u{:04X}", c as u32)),
+            c => {
+                if exotic && t.chance(1, 8) {
+                    if (c as u32) <= 0xffff && t.chance(1, 2) {
+                        out.push_str(&format!("\\u{:04x}", c as u32));
+                    } else {
+                        out.push_str(&format!("\\U{:08X}", c as u32));
+                    }
+                } else {
+                    out.push(c)
+                }
+            }
+        }
+    }
+}
+
+fn literal_ok(s: &str) -> bool {
+    !s.chars().any(|c| c == '\'' || c == '\n' || c == '\r' || ((c as u32) < 0x20 && c != '\t') || c as u32 == 0x7f)
+}
+
+impl Render {
+    fn on(&self, bit: u32) -> bool {
+        self.f & bit != 0
+    }
+    fn ws(&mut self) {
+        if self.on(F_WS) {
+            match self.t.below(5) {
+                0 => {}
+                1 => self.out.push(' '),
+                2 => self.out.push('\t'),
+                3 => self.out.push_str("  "),
+                _ => self.out.push_str(" \t "),
+            }
+        } else {
+            self.out.push(' ');
+        }
+    }
+    fn opt_ws(&mut self) {
+        if self.on(F_WS) {
+            self.ws()
+        }
+    }
+    fn nl(&mut self) {
+        if self.on(F_CRLF) && self.t.chance(2, 3) {
+            self.out.push_str("\r\n");
+        } else {
+            self.out.push('\n');
+        }
+    }
+    fn comment(&mut self) {
+        self.out.push('#');
+        let c = *self.t.pick(COMMENT_TEXTS);
+        self.out.push_str(c);
+    }
+    /// end of a statement line: optional trailing comment, newline, optional blank/comment lines
+    fn eol(&mut self) {
+        if self.on(F_COMMENTS) && self.t.chance(1, 4) {
+            self.opt_ws();
+            if !self.on(F_WS) {
+                self.out.push(' ');
+            }
+            self.comment();
+        } else if self.on(F_WS) && self.t.chance(1, 5) {
+            self.out.push_str(" \t");
+        }
+        self.nl();
+        self.filler();
+    }
+    fn filler(&mut self) {
+        while self.t.chance(1, 6) {
+            if self.on(F_COMMENTS) && self.t.chance(1, 2) {
+                self.indent();
+                self.comment();
+            } else if self.on(F_WS) && self.t.chance(1, 3) {
+                self.out.push_str("  ");
+            }
+            self.nl();
+        }
+    }
+    fn indent(&mut self) {
+        if self.on(F_WS) && self.t.chance(1, 3) {
+            let s = *self.t.pick(&["  ", "\t", "    ", " "]);
+            self.out.push_str(s);
+        }
+    }
+    fn key_token(&mut self, k: &str) -> (usize, usize) {
+        let start = self.out.len();
+        let force_quote = self.on(F_QUOTE_KEYS) && self.t.chance(1, 4);
+        if is_bare(k) && !force_quote {
+            self.out.push_str(k);
+        } else if literal_ok(k) && self.t.chance(1, 2) {
+            self.out.push('\'');
+            self.out.push_str(k);
+            self.out.push('\'');
+        } else {
+            self.out.push('"');
+            let exotic = self.on(F_SPELLINGS);
+            let mut tmp = String::new();
+            basic_escape(k, &mut tmp, &mut self.t, exotic);
+            self.out.push_str(&tmp);
+            self.out.push('"');
+        }
+        (start, self.out.len())
+    }
+    /// dotted key path; records the span of the last component as the key of `path`
+    fn key_path(&mut self, prefix: &[String], k: &str, path: &[PathSeg]) {
+        for p in prefix {
+            self.key_token(p);
+            self.opt_ws();
+            self.out.push('.');
+            self.opt_ws();
+        }
+        let (s, e) = self.key_token(k);
+        self.spans.push((path.to_vec(), s, e, true));
+    }
+    fn int(&mut self, i: i64) {
+        let exotic = self.on(F_SPELLINGS);
+        if exotic && i >= 0 && self.t.chance(1, 3) {
+            let (pre, digits) = match self.t.below(3) {
+                0 => ("0x", if self.t.chance(1, 2) { format!("{i:x}") } else { format!("{i:X}") }),
+                1 => ("0o", format!("{i:o}")),
+                _ => ("0b", format!("{i:b}")),
+            };
+            self.out.push_str(pre);
+            self.digits_with_underscores(&digits);
+        } else {
+            let digits = i.unsigned_abs().to_string();
+            if i < 0 {
+                self.out.push('-');
+            } else if exotic && self.t.chance(1, 4) {
+                self.out.push('+');
+            }
+            if exotic {
+                self.digits_with_underscores(&digits);
+            } else {
+                self.out.push_str(&digits);
+            }
+        }
+    }
+    fn digits_with_underscores(&mut self, d: &str) {
+        let cs: Vec<char> = d.chars().collect();
+        for (i, c) in cs.iter().enumerate() {
+            self.out.push(*c);
+            if i + 1 < cs.len() && self.t.chance(1, 5) {
+                self.out.push('_');
+            }
+        }
+    }
+    fn float(&mut self, bits: u64) {
+        let f = f64::from_bits(bits);
+        let exotic = self.on(F_SPELLINGS);
+        if f.is_nan() {
+            let s = *self.t.pick(if exotic { &["nan", "+nan", "-nan"][..] } else { &["nan"][..] });
+            self.out.push_str(s);
+        } else if f.is_infinite() {
+            if f > 0.0 {
+                let s = *self.t.pick(if exotic { &["inf", "+inf"][..] } else { &["inf"][..] });
+                self.out.push_str(s);
+            } else {
+                self.out.push_str("-inf");
+            }
+        } else {
+            let mut s = format!("{f:?}");
+            if exotic {
+                if self.t.chance(1, 4) {
+                    s = s.replace('e', "E");
+                }
+                if f.is_sign_positive() && self.t.chance(1, 5) {
+                    s.insert(0, '+');
+                }
+            }
+            self.out.push_str(&s);
+        }
+    }
+    fn datetime(&mut self, d: &Dt) {
+        let exotic = self.on(F_SPELLINGS);
+        if let Some((y, m, dd)) = d.date {
+            self.out.push_str(&format!("{y:04}-{m:02}-{dd:02}"));
+        }
+        if let Some((h, mi, s, ns)) = d.time {
+            if d.date.is_some() {
+                let sep = if exotic { *self.t.pick(&['T', 't', ' ']) } else { 'T' };
+                self.out.push(sep);
+            }
+            self.out.push_str(&format!("{h:02}:{mi:02}:{s:02}"));
+            if ns != 0 || (exotic && self.t.chance(1, 5)) {
+                let full = format!("{ns:09}");
+                let mut frac = full.trim_end_matches('0').to_string();
+                if frac.is_empty() {
+                    frac.push('0');
+                }
+                if exotic {
+                    // extra zero digits (up to 12 in total) do not change the value
+                    let extra = self.t.below(4);
+                    for _ in 0..extra {
+                        if frac.len() < 12 {
+                            frac.push('0');
+                        }
+                    }
+                }
+                self.out.push('.');
+                self.out.push_str(&frac);
+            }
+        }
+        match d.offset {
+            Some(Off::Z) => {
+                let z = if exotic { *self.t.pick(&['Z', 'z']) } else { 'Z' };
+                self.out.push(z);
+            }
+            Some(Off::Min(m)) => {
+                let (sign, a) = if m < 0 { ('-', -m) } else { ('+', m) };
+                self.out.push_str(&format!("{sign}{:02}:{:02}", a / 60, a % 60));
+            }
+            None => {}
+        }
+    }
+    fn string(&mut self, s: &str) {
+        let exotic = self.on(F_SPELLINGS);
+        let kind = if exotic { self.t.below(4) } else { 0 };
+        match kind {
+            1 if literal_ok(s) => {
+                self.out.push('\'');
+                self.out.push_str(s);
+                self.out.push('\'');
+            }
+            2 => {
+                // multi-line basic
+                self.out.push_str("\"\"\"");
+                if self.t.chance(1, 2) {
+                    self.out.push('\n'); // trimmed by the parser
+                } else if s.starts_with('\n') {
+                    // a leading raw newline would be trimmed: keep it by adding the trimmed one first
+                    self.out.push('\n');
+                }
+                let cs: Vec<char> = s.chars().collect();
+                let mut run = 0;
+                for (i, c) in cs.iter().enumerate() {
+                    match c {
+                        '"' => {
+                            let last = i + 1 == cs.len();
+                            if run >= 2 || last || self.t.chance(1, 2) {
+                                self.out.push_str("\\\"");
+                                run = 0;
+                            } else {
+                                self.out.push('"');
+                                run += 1;
+                            }
+                            continue;
+                        }
+                        '\\' => self.out.push_str("\\\\"),
+                        '\n' => {
+                            if self.t.chance(1, 2) {
+                                self.out.push('\n')
+                            } else {
+                                self.out.push_str("\\n")
+                            }
+                        }
+                        '\r' => self.out.push_str("\\r"),
+                        '\t' => self.out.push('\t'),
+                        '\u{8}' => self.out.push_str("\\b"),
+                        '\u{c}' => self.out.push_str("\\f"),
+                        c if (*c as u32) < 0x20 || *c as u32 == 0x7f => self.out.push_str(&format!("\\u{:04X}", *c as u32)),
+                        c => {
+                            self.out.push(*c);
+                            // line-ending backslash: the following whitespace/newlines are trimmed
+                            if self.t.chance(1, 12) && i + 1 < cs.len() && !cs[i + 1].is_whitespace() {
+                                self.out.push_str("\\\n   \t");
+                            }
+                        }
+                    }
+                    run = 0;
+                }
+                self.out.push_str("\"\"\"");
+            }
+            3 if !s.contains("''") && !s.ends_with('\'') && !s.chars().any(|c| c == '\r' || ((c as u32) < 0x20 && c != '\t' && c != '\n') || c as u32 == 0x7f) => {
+                self.out.push_str("'''");
+                if s.starts_with('\n') || self.t.chance(1, 2) {
+                    self.out.push('\n');
+                }
+                self.out.push_str(s);
+                self.out.push_str("'''");
+            }
+            _ => {
+                self.out.push('"');
+                let mut tmp = String::new();
+                basic_escape(s, &mut tmp, &mut self.t, exotic);
+                self.out.push_str(&tmp);
+                self.out.push('"');
+            }
+        }
+    }
+    fn scalar(&mut self, t: &Tree) {
+        match t {
+            Tree::Bool(b) => self.out.push_str(if *b { "true" } else { "false" }),
+            Tree::Int(i) => self.int(*i),
+            Tree::Float(f) => self.float(*f),
+            Tree::Str(s) => self.string(s),
+            Tree::Dt(d) => self.datetime(d),
+            _ => unreachable!("HARNESS: non-scalar in Scalar node"),
+        }
+    }
+    /// a value token (scalar, inline array, inline table); records its span
+    fn value(&mut self, n: &Node, path: &mut Vec<PathSeg>) {
+        let start = self.out.len();
+        match n {
+            Node::Scalar(t) => self.scalar(t),
+            Node::Array(xs) => self.array_items(xs.iter().collect(), path),
+            Node::Aot(ts) => {
+                // inside a value an array of tables is an array of inline tables
+                let nodes: Vec<Node> = ts.iter().map(|kvs| Node::Table(kvs.clone(), TabLayout::Inline)).collect();
+                self.array_items(nodes.iter().collect(), path);
+            }
+            Node::Table(kvs, _) => {
+                self.out.push('{');
+                let mut first = true;
+                let mut lines: Vec<(Vec<String>, String, Node, Vec<PathSeg>)> = Vec::new();
+                flatten_inline(kvs, &mut Vec::new(), path, &mut lines);
+                for (prefix, k, v, mut p) in lines {
+                    if !first {
+                        self.opt_ws();
+                        self.out.push(',');
+                    }
+                    first = false;
+                    self.ws();
+                    self.key_path(&prefix, &k, &p);
+                    self.ws();
+                    self.out.push('=');
+                    self.ws();
+                    self.value(&v, &mut p);
+                }
+                self.ws();
+                self.out.push('}');
+            }
+        }
+        self.spans.push((path.clone(), start, self.out.len(), false));
+    }
+    fn array_items(&mut self, xs: Vec<&Node>, path: &mut Vec<PathSeg>) {
+        let ml = self.on(F_ML_ARRAYS) && self.t.chance(1, 2);
+        self.out.push('[');
+        for (i, x) in xs.iter().enumerate() {
+            if ml {
+                self.opt_ws();
+                if self.on(F_COMMENTS) && self.t.chance(1, 4) {
+                    self.comment();
+                }
+                self.nl();
+                self.out.push_str("  ");
+            } else {
+                self.opt_ws();
+            }
+            path.push(PathSeg::I(i));
+            self.value(x, path);
+            path.pop();
+            self.opt_ws();
+            if i + 1 < xs.len() {
+                self.out.push(',');
+            } else if ml && self.t.chance(1, 2) {
+                self.out.push(',');
+            }
+        }
+        if ml {
+            if self.on(F_COMMENTS) && self.t.chance(1, 4) {
+                self.ws();
+                self.comment();
+            }
+            self.nl();
+        } else {
+            self.opt_ws();
+        }
+        self.out.push(']');
+    }
+    fn header(&mut self, keys: &[String], aot: bool) {
+        self.indent();
+        self.out.push_str(if aot { "[[" } else { "[" });
+        self.opt_ws();
+        for (i, k) in keys.iter().enumerate() {
+            if i > 0 {
+                self.opt_ws();
+                self.out.push('.');
+                self.opt_ws();
+            }
+            self.key_token(k);
+        }
+        self.opt_ws();
+        self.out.push_str(if aot { "]]" } else { "]" });
+        self.eol();
+    }
+    /// body of a header-able table: first its key/value lines (including dotted sub-tables), then sub-sections
+    fn body(&mut self, kvs: &[(String, Node)], hdr: &[String], path: &mut Vec<PathSeg>, in_aot: bool) {
+        // key/value lines
+        let mut lines: Vec<(Vec<String>, String, Node, Vec<PathSeg>)> = Vec::new();
+        let mut sections: Vec<(&String, &Node)> = Vec::new();
+        for (k, n) in kvs {
+            match n {
+                Node::Table(_, TabLayout::Header) | Node::Aot(_) => sections.push((k, n)),
+                Node::Table(sub, TabLayout::Dotted) => {
+                    path.push(PathSeg::K(k.clone()));
+                    flatten_dotted(sub, &mut vec![k.clone()], path, &mut lines, &mut Vec::new());
+                    path.pop();
+                }
+                _ => {
+                    let mut p = path.clone();
+                    p.push(PathSeg::K(k.clone()));
+                    lines.push((Vec::new(), k.clone(), n.clone(), p));
+                }
+            }
+        }
+        if self.on(F_REORDER) {
+            self.t.shuffle(&mut lines);
+        }
+        for (prefix, k, v, mut p) in lines {
+            self.indent();
+            self.key_path(&prefix, &k, &p);
+            self.ws();
+            self.out.push('=');
+            self.ws();
+            self.value(&v, &mut p);
+            self.eol();
+        }
+        if self.on(F_REORDER) && !in_aot {
+            self.t.shuffle(&mut sections);
+        }
+        for (k, n) in sections {
+            let mut h: Vec<String> = hdr.to_vec();
+            h.push(k.clone());
+            path.push(PathSeg::K(k.clone()));
+            match n {
+                Node::Table(sub, _) => self.section(sub, &h, path, in_aot),
+                Node::Aot(ts) => {
+                    for (i, sub) in ts.iter().enumerate() {
+                        self.header(&h, true);
+                        path.push(PathSeg::I(i));
+                        self.body(sub, &h, path, true);
+                        path.pop();
+                    }
+                }
+                _ => unreachable!(),
+            }
+            path.pop();
+        }
+    }
+    /// a `[header]` table: header + body; with F_REORDER its sub-sections may come first, and a table
+    /// without own key/value lines may stay implicit
+    fn section(&mut self, kvs: &[(String, Node)], hdr: &[String], path: &mut Vec<PathSeg>, in_aot: bool) {
+        let has_sections = kvs.iter().any(|(_, n)| matches!(n, Node::Table(_, TabLayout::Header) | Node::Aot(_)));
+        let only_sections = has_sections && kvs.iter().all(|(_, n)| matches!(n, Node::Table(_, TabLayout::Header) | Node::Aot(_)));
+        if self.on(F_REORDER) && only_sections && self.t.chance(1, 2) {
+            // implicit parent: never gets a header of its own
+            self.body(kvs, hdr, path, in_aot);
+            return;
+        }
+        let has_aot = kvs.iter().any(|(_, n)| matches!(n, Node::Aot(_)));
+        // (an explicit [a] after [[a.b]] is class U1: never generated)
+        if self.on(F_REORDER) && has_sections && !has_aot && !in_aot && self.t.chance(1, 3) {
+            // sub-tables first, super-table afterwards
+            let (secs, own): (Vec<_>, Vec<_>) = kvs.iter().cloned().partition(|(_, n)| matches!(n, Node::Table(_, TabLayout::Header) | Node::Aot(_)));
+            self.body(&secs, hdr, path, in_aot);
+            self.header(hdr, false);
+            self.body(&own, hdr, path, in_aot);
+            return;
+        }
+        self.header(hdr, false);
+        self.body(kvs, hdr, path, in_aot);
+    }
+}
+
+/// expand a dotted table into `prefix.key = value` lines (all inside the current body)
+fn flatten_dotted(
+    kvs: &[(String, Node)],
+    prefix: &mut Vec<String>,
+    path: &mut Vec<PathSeg>,
+    lines: &mut Vec<(Vec<String>, String, Node, Vec<PathSeg>)>,
+    _unused: &mut Vec<()>,
+) {
+    for (k, n) in kvs {
+        match n {
+            Node::Table(sub, TabLayout::Dotted) if !sub.is_empty() => {
+                prefix.push(k.clone());
+                path.push(PathSeg::K(k.clone()));
+                flatten_dotted(sub, prefix, path, lines, _unused);
+                path.pop();
+                prefix.pop();
+            }
+            _ => {
+                let mut p = path.clone();
+                p.push(PathSeg::K(k.clone()));
+                lines.push((prefix.clone(), k.clone(), n.clone(), p));
+            }
+        }
+    }
+}
+fn flatten_inline(kvs: &[(String, Node)], prefix: &mut Vec<String>, path: &mut Vec<PathSeg>, lines: &mut Vec<(Vec<String>, String, Node, Vec<PathSeg>)>) {
+    for (k, n) in kvs {
+        match n {
+            Node::Table(sub, TabLayout::Dotted) if !sub.is_empty() => {
+                prefix.push(k.clone());
+                path.push(PathSeg::K(k.clone()));
+                flatten_inline(sub, prefix, path, lines);
+                path.pop();
+                prefix.pop();
+            }
+            _ => {
+                let mut p = path.clone();
+                p.push(PathSeg::K(k.clone()));
+                lines.push((prefix.clone(), k.clone(), n.clone(), p));
+            }
+        }
+    }
+}
+
+pub fn render(plan: &DocPlan) -> DocSpec {
+    let mut r = Render { out: String::new(), t: Rng::new(plan.trivia_seed), f: plan.features, spans: Vec::new() };
+    if r.on(F_BOM) {
+        r.out.push('\u{feff}');
+    }
+    r.filler();
+    let mut path = Vec::new();
+    r.body(&plan.root, &[], &mut path, false);
+    if r.on(F_NO_FINAL_NL) {
+        while r.out.ends_with('\n') || r.out.ends_with('\r') {
+            r.out.pop();
+        }
+    }
+    DocSpec { text: r.out, tree: Some(plan.tree()), spans: r.spans, source: "docgen".into(), plan: Some(plan.clone()) }
+}
+
+pub fn gen_doc(rng: &mut Rng) -> (DocSpec, Tree) {
+    if rng.chance(1, 8) {
+        let docs = corpus();
+        let (name, text) = &docs[rng.below(docs.len())];
+        let tree = toml_edit::ImDocument::parse(text.clone()).ok().and_then(|d| Tree::from_item(d.as_item())).unwrap_or(Tree::Tab(vec![]));
+        return (DocSpec { text: text.clone(), tree: None, spans: vec![], source: format!("toml-test:{name}"), plan: None }, tree);
+    }
+    let plan = gen_plan(rng);
+    let doc = render(&plan);
+    let tree = plan.tree();
+    (doc, tree)
+}
+
+/// the valid documents of toml-test-data for TOML 1.0.0
+pub fn corpus() -> &'static Vec<(String, String)> {
+    use std::sync::OnceLock;
+    static C: OnceLock<Vec<(String, String)>> = OnceLock::new();
+    C.get_or_init(|| {
+        let wanted: std::collections::HashSet<&std::path::Path> = toml_test_data::version("1.0.0").collect();
+        let mut v: Vec<(String, String)> = toml_test_data::valid()
+            .filter(|t| wanted.contains(t.name))
+            .filter_map(|t| std::str::from_utf8(t.fixture).ok().map(|s| (t.name.display().to_string(), s.to_string())))
+            .collect();
+        v.sort();
+        v
+    })
+}
+
+// ------------------------------------------------------------------------------------------------
+// reader-type inference
+// ------------------------------------------------------------------------------------------------
+
+pub struct InferCfg {
+    /// out of 100: deliberately mismatching leaf / shape
+    pub mismatch: u32,
+    /// out of 100: wrap a node in Spanned
+    pub spanned: u32,
+    /// out of 100: use `Any` for a subtree
+    pub any: u32,
+}
+
+pub fn infer_type(rng: &mut Rng, tree: &Tree, allow_mismatch: bool) -> Ty {
+    let cfg = InferCfg { mismatch: if allow_mismatch && rng.chance(1, 4) { 8 } else { 0 }, spanned: 0, any: *rng.pick(&[0, 5, 20]) };
+    infer(rng, tree, &cfg, 0, true)
+}
+
+pub fn infer(rng: &mut Rng, tree: &Tree, cfg: &InferCfg, depth: u32, root: bool) -> Ty {
+    let t = infer_inner(rng, tree, cfg, depth, root);
+    if cfg.spanned > 0 && rng.chance(cfg.spanned, 100) {
+        return Ty::Spanned(Box::new(t));
+    }
+    if !root && depth > 0 && rng.chance(1, 25) {
+        return Ty::Newtype("Wrap".into(), Box::new(t));
+    }
+    t
+}
+
+fn infer_inner(rng: &mut Rng, tree: &Tree, cfg: &InferCfg, depth: u32, root: bool) -> Ty {
+    if !root && cfg.any > 0 && rng.chance(cfg.any, 100) {
+        return Ty::Any;
+    }
+    if cfg.mismatch > 0 && rng.chance(cfg.mismatch, 100) {
+        return rng.pick(&[Ty::Bool, Ty::I64, Ty::Str, Ty::F64, Ty::Seq(Box::new(Ty::I64)), Ty::Struct("Mis".into(), vec![("zz".into(), Ty::I64)]), Ty::U8, Ty::Datetime, Ty::Char, Ty::Unit]).clone();
+    }
+    match tree {
+        Tree::Bool(_) => Ty::Bool,
+        Tree::Int(i) => {
+            let fits = |t: &Ty| {
+                let (lo, hi) = t.int_range();
+                (*i as i128) >= lo && (*i as i128) <= hi
+            };
+            let cands = [Ty::I64, Ty::I64, Ty::I8, Ty::I16, Ty::I32, Ty::U8, Ty::U16, Ty::U32, Ty::U64, Ty::F64];
+            for _ in 0..6 {
+                let c = rng.pick(&cands).clone();
+                if c == Ty::F64 || fits(&c) || cfg.mismatch > 0 {
+                    return c;
+                }
+            }
+            Ty::I64
+        }
+        Tree::Float(_) => {
+            if rng.chance(1, 5) {
+                Ty::F32
+            } else {
+                Ty::F64
+            }
+        }
+        Tree::Str(s) => {
+            if s.chars().count() == 1 && rng.chance(1, 3) {
+                Ty::Char
+            } else if rng.chance(1, 8) && !crate::seam::is_private_key(s) {
+                // unit variant written as a string
+                let mut vars = vec![(s.clone(), VarTy::Unit)];
+                if rng.chance(1, 2) {
+                    vars.insert(0, ("Other".into(), VarTy::Newtype(Box::new(Ty::I64))));
+                }
+                Ty::Enum("E".into(), dedup_vars(vars))
+            } else {
+                Ty::Str
+            }
+        }
+        Tree::Dt(d) => match (d.date.is_some(), d.time.is_some(), d.offset.is_some()) {
+            (true, false, false) if rng.chance(1, 2) => Ty::Date,
+            (false, true, false) if rng.chance(1, 2) => Ty::Time,
+            _ => Ty::Datetime,
+        },
+        Tree::Arr(xs) => {
+            let tys: Vec<Ty> = xs.iter().map(|x| infer(rng, x, &InferCfg { mismatch: cfg.mismatch, spanned: cfg.spanned, any: 0 }, depth + 1, false)).collect();
+            if xs.is_empty() {
+                return Ty::Seq(Box::new(rng.pick(&[Ty::I64, Ty::Str, Ty::Any]).clone()));
+            }
+            // homogeneous? then a Vec; else a tuple (or Vec<Any>)
+            if let Some(u) = unify_all(&tys) {
+                if rng.chance(3, 4) {
+                    return Ty::Seq(Box::new(u));
+                }
+            }
+            match rng.below(3) {
+                0 => Ty::Seq(Box::new(Ty::Any)),
+                1 if tys.len() >= 2 => Ty::TupleStruct("Tup".into(), tys),
+                _ => Ty::Tuple(tys),
+            }
+        }
+        Tree::Tab(kvs) => {
+            // single-key table as an externally tagged enum
+            if kvs.len() == 1 && !root && rng.chance(1, 4) && !crate::seam::is_private_key(&kvs[0].0) {
+                let (k, x) = &kvs[0];
+                let vt = match x {
+                    Tree::Arr(xs) if xs.len() >= 2 && rng.chance(1, 2) => VarTy::Tuple(xs.iter().map(|e| infer(rng, e, cfg, depth + 1, false)).collect()),
+                    Tree::Tab(sub) if rng.chance(1, 2) => VarTy::Struct(sub.iter().map(|(f, e)| (f.clone(), infer(rng, e, cfg, depth + 1, false))).collect()),
+                    other => VarTy::Newtype(Box::new(infer(rng, other, cfg, depth + 1, false))),
+                };
+                let mut vars = vec![(k.clone(), vt)];
+                if rng.chance(1, 2) {
+                    vars.push(("Zz".into(), VarTy::Unit));
+                }
+                return Ty::Enum("E".into(), dedup_vars(vars));
+            }
+            // map when values unify
+            if !kvs.is_empty() && rng.chance(1, 4) {
+                let tys: Vec<Ty> = kvs.iter().map(|(_, x)| infer(rng, x, &InferCfg { mismatch: cfg.mismatch, spanned: 0, any: 0 }, depth + 1, false)).collect();
+                if let Some(u) = unify_all(&tys) {
+                    let kt = if cfg.spanned > 0 && rng.chance(1, 2) { KeyTy::SpannedStr } else { KeyTy::Str };
+                    return Ty::Map(kt, Box::new(u));
+                }
+            }
+            if kvs.is_empty() && rng.chance(1, 2) {
+                return Ty::Map(KeyTy::Str, Box::new(Ty::I64));
+            }
+            let mut fs: Vec<(String, Ty)> = Vec::new();
+            for (k, x) in kvs {
+                if crate::seam::is_private_key(k) {
+                    continue;
+                }
+                if rng.chance(1, 10) {
+                    continue; // unknown key for the reader: ignored
+                }
+                let mut t = infer(rng, x, cfg, depth + 1, false);
+                if rng.chance(1, 6) {
+                    t = Ty::Option(Box::new(t));
+                }
+                fs.push((k.clone(), t));
+            }
+            if rng.chance(1, 5) {
+                let extra = "zz_missing".to_string();
+                if !fs.iter().any(|(f, _)| *f == extra) {
+                    fs.push((extra, Ty::Option(Box::new(Ty::I64))));
+                }
+            }
+            if cfg.mismatch > 0 && rng.chance(cfg.mismatch, 100) {
+                fs.push(("zz_required".into(), Ty::I64));
+            }
+            Ty::Struct("S".into(), fs)
+        }
+    }
+}
+
+fn dedup_vars(mut v: Vec<(String, VarTy)>) -> Vec<(String, VarTy)> {
+    let mut seen = std::collections::HashSet::new();
+    v.retain(|(n, _)| seen.insert(n.clone()));
+    v
+}
+
+fn unify_all(tys: &[Ty]) -> Option<Ty> {
+    let first = tys.first()?;
+    if tys.iter().all(|t| t == first) {
+        Some(first.clone())
+    } else if tys.iter().all(|t| t.is_int()) {
+        Some(Ty::I64)
+    } else {
+        None
+    }
+}
+
+// ------------------------------------------------------------------------------------------------
+// shrinking (plan level)
+// ------------------------------------------------------------------------------------------------
+
+fn node_shrinks(n: &Node) -> Vec<Node> {
+    let mut out = Vec::new();
+    match n {
+        Node::Scalar(t) => {
+            let simple = Tree::Int(0);
+            if *t != simple {
+                out.push(Node::Scalar(simple));
+            }
+            if let Tree::Str(s) = t {
+                if !s.is_empty() {
+                    out.push(Node::Scalar(Tree::Str(String::new())));
+                    let cs: Vec<char> = s.chars().collect();
+                    if cs.len() > 1 {
+                        out.push(Node::Scalar(Tree::Str(cs[..cs.len() / 2].iter().collect())));
+                        out.push(Node::Scalar(Tree::Str(cs[cs.len() / 2..].iter().collect())));
+                    }
+                }
+            }
+        }
+        Node::Array(xs) => {
+            out.push(Node::Scalar(Tree::Int(0)));
+            for i in 0..xs.len() {
+                let mut c = xs.clone();
+                c.remove(i);
+                out.push(Node::Array(c));
+            }
+            for i in 0..xs.len() {
+                for s in node_shrinks(&xs[i]) {
+                    let mut c = xs.clone();
+                    c[i] = s;
+                    out.push(Node::Array(c));
+                }
+            }
+        }
+        Node::Table(kvs, l) => {
+            out.push(Node::Scalar(Tree::Int(0)));
+            if *l != TabLayout::Inline {
+                out.push(Node::Table(kvs.clone(), TabLayout::Inline));
+            }
+            for e in entries_shrinks(kvs) {
+                if e.is_empty() && *l == TabLayout::Dotted {
+                    continue;
+                }
+                out.push(Node::Table(e, l.clone()));
+            }
+        }
+        Node::Aot(ts) => {
+            out.push(Node::Scalar(Tree::Int(0)));
+            if ts.len() > 1 {
+                for i in 0..ts.len() {
+                    let mut c = ts.clone();
+                    c.remove(i);
+                    out.push(Node::Aot(c));
+                }
+            }
+            for i in 0..ts.len() {
+                for e in entries_shrinks(&ts[i]) {
+                    let mut c = ts.clone();
+                    c[i] = e;
+                    out.push(Node::Aot(c));
+                }
+            }
+        }
+    }
+    out
+}
+
+fn entries_shrinks(kvs: &[(String, Node)]) -> Vec<Vec<(String, Node)>> {
+    let mut out = Vec::new();
+    for i in 0..kvs.len() {
+        let mut c = kvs.to_vec();
+        c.remove(i);
+        out.push(c);
+    }
+    for i in 0..kvs.len() {
+        for s in node_shrinks(&kvs[i].1) {
+            let mut c = kvs.to_vec();
+            c[i].1 = s;
+            out.push(c);
+        }
+        if !(kvs[i].0.len() == 1 && kvs[i].0.chars().all(|c| c.is_ascii_lowercase())) {
+            for cand in ["a", "b", "c", "d"] {
+                if !kvs.iter().any(|(k, _)| k == cand) {
+                    let mut c = kvs.to_vec();
+                    c[i].0 = cand.to_string();
+                    out.push(c);
+                    break;
+                }
+            }
+        }
+    }
+    out
+}
+
+/// Project a reader type onto a shrunk tree so that it keeps "fitting" as far as possible.
+pub fn shrink_doc(sc: &Scenario) -> Vec<Scenario> {
+    let doc = match &sc.doc {
+        Some(d) => d,
+        None => return Vec::new(),
+    };
+    let plan = match &doc.plan {
+        Some(p) => p,
+        None => return Vec::new(),
+    };
+    let mut plans: Vec<DocPlan> = Vec::new();
+    // drop layout features
+    if plan.features != 0 {
+        let mut p = plan.clone();
+        p.features = 0;
+        plans.push(p);
+        for b in 0..9 {
+            if plan.features & (1 << b) != 0 && plan.features != (1 << b) {
+                let mut p = plan.clone();
+                p.features &= !(1 << b);
+                plans.push(p);
+            }
+        }
+    }
+    for e in entries_shrinks(&plan.root) {
+        let mut p = plan.clone();
+        p.root = e;
+        plans.push(p);
+    }
+    plans
+        .into_iter()
+        .map(|p| {
+            let mut c = sc.clone();
+            c.doc = Some(render(&p));
+            c
+        })
+        .collect()
 }
